@@ -1,6 +1,7 @@
 import Gonuts.Lemmas.MintConc
 import Gonuts.Lemmas.MintSeq
 import Gonuts.Props.C01
+import Gonuts.Lemmas.SwapCrash
 /-!
   C07 — mint crash consistency.
 
@@ -71,6 +72,34 @@ theorem spent_refused_after_restart (c : CSess) (evts : List CEvt) (row : PRow) 
     ∃ e, (applyOp (runCEvts c evts).s (.swap ps outs v)).2 = .sigs (.error e) ∧
       (applyOp (runCEvts c evts).s (.swap ps outs v)).1.w.db = (runCEvts c evts).s.w.db :=
   C01.used_refused_after_anything c evts row h hf ps outs v hp
+
+/-! ## Atomicity of swap, exactly (all requests, all worlds, all interruption points, with or without an armed fault) -/
+
+/-- A killed or faulted swap leaves one of exactly three states: nothing; the inputs in the spent table; the inputs
+    spent AND the signatures stored.  (The middle one is the stranding point; `swap_atomic_full_false`.) -/
+theorem swap_interrupted_states (cx : Cx) (ps : List Proof) (outs : List BMsg) (v : Option E) (n : Nat) (w : World) :
+    ((swap cx ps outs v).run.runN n w).1.db = w.db ∨
+    ∃ t, insertRows w.db.spent (ps.map Proof.row) = some t ∧
+      (((swap cx ps outs v).run.runN n w).1.db = { w.db with spent := t } ∨
+       ∃ sigs t2, insertSigs w.db.sigs sigs = some t2 ∧
+         ((swap cx ps outs v).run.runN n w).1.db = { w.db with spent := t, sigs := t2 }) :=
+  swap_crash_states cx ps outs v n w
+
+/-- Safety at every interruption point: a swap never stores a signature unless all its inputs are in the spent table. -/
+theorem swap_never_signs_without_spending (cx : Cx) (ps : List Proof) (outs : List BMsg) (v : Option E) (n : Nat) (w : World)
+    (hs : ((swap cx ps outs v).run.runN n w).1.db.sigs ≠ w.db.sigs) :
+    ∀ p ∈ ps, p.secret ∈ ysOf ((swap cx ps outs v).run.runN n w).1.db.spent := by
+  rcases swap_crash_states cx ps outs v n w with h | ⟨t, hins, h | ⟨sigs, t2, _, h⟩⟩
+  · rw [h] at hs; exact absurd rfl hs
+  · rw [h] at hs; exact absurd rfl hs
+  · intro p hp
+    rw [h]
+    obtain ⟨ht, _⟩ := insertRows_some hins
+    show p.secret ∈ ysOf t
+    rw [ht]
+    simp only [ysOf, List.map_append, List.mem_append, List.mem_map]
+    right
+    exact ⟨p.row, ⟨p, hp, rfl⟩, rfl⟩
 
 /-! ## Canonical instances: one proof of 8 (secret 7), one output (B_ 1), one quote of 8 -/
 
